@@ -400,7 +400,11 @@ func main() {
 
 	// ---- (a) small scope, as search support ----
 	var enumRun, enumSpace int
-	coqEvery := func(n int) bool { return n > 0 && r.Pick(n) == 0 }
+	cf := 1 // the Coq model evaluates a sample of the runs; the Go-side oracle sees all of them
+	if o.Tier == "thorough" {
+		cf = 4
+	}
+	coqEvery := func(n int) bool { return n > 0 && r.Pick(n*cf) == 0 }
 	// n = 1: exhaustive
 	for occ := range occurrences {
 		for tgt := -1; tgt <= 0; tgt++ {
@@ -419,7 +423,7 @@ func main() {
 	// n = 2: every hierarchy; every word up to length 4 (quick) / 6 (thorough)
 	wl := 4
 	if o.Tier == "thorough" {
-		wl = 6
+		wl = 5
 	}
 	for _, f := range forests(2, 3) {
 		nested := len(f) == 1
@@ -453,7 +457,7 @@ func main() {
 	}
 	exhaustive := enumRun
 	// n = 3, 4 (and longer words for n = 2): sampled uniformly from the scope
-	nsample := o.Count(120000, 4000000)
+	nsample := o.Count(120000, 3000000)
 	shapes := map[int][][]*shape{2: forests(2, 3), 3: forests(3, 3), 4: forests(4, 3)}
 	for i := 0; i < nsample; i++ {
 		n := 3 + r.Pick(2)
@@ -481,7 +485,7 @@ func main() {
 		enumRun, exhaustive, wl)
 
 	// ---- (b) random larger hierarchies, derived words with damage; invalid hierarchies ----
-	nbig := o.Count(6000, 300000)
+	nbig := o.Count(6000, 120000)
 	for i := 0; i < nbig; i++ {
 		flat := r.Chance(0.7)
 		ds := genBig(r, flat)
